@@ -445,10 +445,14 @@ pub fn run(tier: &Tier) -> i32 {
         ];
         crate::seqx::explore_sequences(&rep, &c, &focus, &crate::seqx::context_alphabet(), seq_depth, &crate::seqx::default_inits())
     };
+    // direct calls: word MUL/IMUL for every AX x every operand (quick: 2^26 pairs); word DIV/IDIV for every divisor x
+    // every DX (quick: 1 024 per divisor) x 6 AX values that depend on the pair
+    let direct_mul = crate::direct::run_group(&rep, &c, "mul", tier.name());
+    let direct_div = crate::direct::run_group(&rep, &c, "div", tier.name());
     let mut cov = Coverage::default();
     cov.exhaustive = true;
-    cov.rule = "every case = (source instruction, pre-state) executed through Preprocessor+Interpreter and compared with the reference MUL/DIV/BCD semantics (outcome NEXT vs INT 0, AX/DX, CF/OF, frame). Byte forms: all 256 AL x all 256 operands x a set of AH values (all 256 in thorough); word forms: (DX,AX,operand) boundary lattice cubed plus, for every divisor (every 7th in quick), the dividends at the quotient-overflow boundary; all 2^16 AX x AF x CF for the eight adjust instructions; every operand form incl. the implicit registers as explicit operand; 8 end-to-end divide-error programs through the CLI binary, each plain, single-stepped with -i and under a program-set trap flag (nothing may follow the report). Word operands also run through 512 values away from the boundaries (every low byte under a fixed high byte and the reverse) against the lattice, both ways round, and through 8 fixed RELATIONS between the two operands (equal, low byte complemented, complemented, successor, bytes swapped, negated, doubled, halved+0x4000) for every 16-bit x. Histories: every sequence of up to 3 (thorough 4) instructions over the property's instructions plus a 22-instruction context alphabet (register, memory, stack and flag traffic, data-label operands, DS/ES loaded by pop and by mov), with at least one of the property's instructions, as ONE program on ONE machine and ONE Interpreter object from 3 initial states, compared with the reference after every step (whole memory on every 16th run)".into();
-    cov.bounds = json!({"ah_values": ahs.len(), "word_lattice": lat.len(), "divisor_stride": stride, "forms": fs.len(), "sequence_depth": seq_depth, "sequences": seq.sequences, "sequence_steps": seq.steps, "sequence_whole_memory_audits": seq.audits, "tier": tier.name()});
+    cov.rule = "every case = (source instruction, pre-state) executed through Preprocessor+Interpreter and compared with the reference MUL/DIV/BCD semantics (outcome NEXT vs INT 0, AX/DX, CF/OF, frame). Direct calls (separate binary vdirect, bounds.direct_mul / direct_div): word_mul/word_imul for every AX x every operand, word_div/word_idiv for every divisor x every DX x 6 AX values (quick: 1 024 second values per first value). Byte forms: all 256 AL x all 256 operands x a set of AH values (all 256 in thorough); word forms: (DX,AX,operand) boundary lattice cubed plus, for every divisor (every 7th in quick), the dividends at the quotient-overflow boundary; all 2^16 AX x AF x CF for the eight adjust instructions; every operand form incl. the implicit registers as explicit operand; 8 end-to-end divide-error programs through the CLI binary, each plain, single-stepped with -i and under a program-set trap flag (nothing may follow the report). Word operands also run through 512 values away from the boundaries (every low byte under a fixed high byte and the reverse) against the lattice, both ways round, and through 8 fixed RELATIONS between the two operands (equal, low byte complemented, complemented, successor, bytes swapped, negated, doubled, halved+0x4000) for every 16-bit x. Histories: every sequence of up to 3 (thorough 4) instructions over the property's instructions plus a 22-instruction context alphabet (register, memory, stack and flag traffic, data-label operands, DS/ES loaded by pop and by mov), with at least one of the property's instructions, as ONE program on ONE machine and ONE Interpreter object from 3 initial states, compared with the reference after every step (whole memory on every 16th run)".into();
+    cov.bounds = json!({"direct_mul": direct_mul, "direct_div": direct_div, "ah_values": ahs.len(), "word_lattice": lat.len(), "divisor_stride": stride, "forms": fs.len(), "sequence_depth": seq_depth, "sequences": seq.sequences, "sequence_steps": seq.steps, "sequence_whole_memory_audits": seq.audits, "tier": tier.name()});
     cov.assumptions = common_assumptions();
     cov.assumptions.push("IDIV whose quotient is exactly -2^(w-1): divide error (8086) or result (later CPUs) both accepted".into());
     cov.assumptions.push("DAA/DAS/AAA/AAS on non-BCD inputs: either the 8086 manual's or the later SDM's pseudo code is accepted where they differ".into());
